@@ -1,6 +1,7 @@
 package main
 
 import (
+	"crypto/sha256"
 	"fmt"
 	"os"
 	"path/filepath"
@@ -128,6 +129,39 @@ func scenarioC06Encoded(c *hlib.RunCtx) *hlib.Violation {
 		kv = append(kv, [2]string{"Extra: key", "value: with colon "})
 	}
 	meta := refformat.MetaText(kv[:t.Range(0, len(kv))])
+	if t.Bool(1, 3) {
+		// Metadata of any shape the layout admits: the lines in any order, blank
+		// lines before and between them, empty values, values that hold ": ",
+		// keys with spaces, no final blank line, and sizes up to the cap.
+		var sb strings.Builder
+		lines := kv[:t.Range(0, len(kv))]
+		for i, p := range lines {
+			if t.Bool(1, 4) {
+				sb.WriteString("\n")
+				w.s.Probe("metadata-blank-line")
+			}
+			val := p[1]
+			switch t.Draw(6) {
+			case 1:
+				val = ""
+			case 2:
+				val += ": " + val
+			case 3:
+				val = " " + val + " "
+			}
+			sb.WriteString(fmt.Sprintf("%s%d: %s\n", p[0], i, val))
+		}
+		if t.Bool(1, 2) {
+			sb.WriteString("\n")
+		}
+		meta = sb.String()
+		if t.Bool(1, 4) && len(meta) < refformat.MaxMeta-8 {
+			// exactly at (or just below) the cap
+			pad := refformat.MaxMeta - len(meta) - len("Pad: \n") - t.Draw(2)
+			meta += "Pad: " + strings.Repeat("x", pad) + "\n"
+			w.s.Probe("metadata-at-cap")
+		}
+	}
 	var pairs []refformat.Pair
 	n := t.Draw(12)
 	if t.Bool(1, 4) {
@@ -180,10 +214,10 @@ func scenarioC06Encoded(c *hlib.RunCtx) *hlib.Violation {
 	c.Note("nontrivial")
 	c.Note(fmt.Sprintf("encoded-style-%d", style))
 	c.Sample = map[string]any{"style": style, "records": len(pairs), "size": len(data)}
-	w.s.Logf("case", "style %d records %d size %d", style, len(pairs), len(data))
+	w.s.Logf("case", "style %d records %d size %d content %x", style, len(pairs), len(data), sha256.Sum256(data))
 	w.compareParse(&view{path: "encoded.v1.count", last: data, dec: d})
 	if w.viol != nil {
-		w.viol.Property = "C06"
+		w.viol.Property = c.Prop
 	}
 	return w.viol
 }
